@@ -2465,6 +2465,12 @@ parse_identifier:
                           yylval.ihe = ihe;
                           return L_DEFINED_NAME;
                         }
+                      if (function_flag)
+                        {
+                          /* (: name ... with a name that is not defined (yet): an old-style functional */
+                          function_flag = 0;
+                          return old_func ();
+                        }
                       yylval.string = scratch_copy (yytext);
                       return L_IDENTIFIER;
                     }
@@ -2613,6 +2619,7 @@ void start_new_file (int fd, const char* pre_text) {
     }
   yyin_desc = fd; /* lexer input file descriptor */
   lex_fatal = 0;
+  function_flag = 0;
   last_function_context = -1;
   refused_function_contexts = 0;
   current_function_context = 0;
